@@ -372,6 +372,13 @@ func c05Fixpoint(p *Prog, rp *Report) {
 		fields = append(fields, alts[i]+" | "+alts[i+1]+"|"+alts[i+2], alts[i]+",\n "+alts[i+1]+" ,"+alts[i+2]+",", " "+alts[i]+" |\t${v} , "+alts[i+2])
 	}
 	fields = append(fields, "", " ", "a,,b", "a, ,b", "foo |", "| foo", "|", "foo <>", "a (>= 1)[amd64]<x>")
+	// whatever else the parser may choose to accept has to survive the round trip as well
+	for _, sv := range []string{"${perl:Depends}", "${v}"} {
+		for _, rest := range []string{" (>= 5.30)", "(= 1)", " [amd64]", " [!amd64 !i386]", " <stage1>", ":any", " (>= 1) [amd64] <p>"} {
+			fields = append(fields, sv+rest, sv+rest+", perl", "a | "+sv+rest)
+		}
+	}
+	fields = append(fields, "foo (< 1.0)", "foo (> 1.0)", "foo (<1)", "foo (>1)", "foo (== 1)", "foo (!= 1)", "foo(>=1)", "foo [amd64] [i386]", "foo <a> [amd64] (>= 1)", "foo:any:amd64", "foo [amd64 !i386]")
 	var problems []string
 	n, accepted := 0, 0
 	for _, f := range fields {
